@@ -256,6 +256,9 @@ func (o *Oracle) Check(st *Step, obs *StepObs, c02, c11 bool) []Finding {
 				}
 				add(key, "running HAProxy differs from the files on disk after an update with %d reload(s), %d command(s): %s", obs.Reloads, obs.Commands, obs.Diff)
 			}
+			if obs.Stale > 0 {
+				add("C02/command-to-old-process", "%d runtime command(s) were sent on a connection of a HAProxy process that stopped listening at an earlier reload: answered, but the process serving the traffic did not change", obs.Stale)
+			}
 			if obs.FaultsHit > 0 && obs.Reloads == 0 {
 				add("C02/fault-no-reload", "%d runtime command(s) failed or were answered unexpectedly and no reload followed", obs.FaultsHit)
 			}
